@@ -117,7 +117,7 @@ func childC02(c *Case, args []string) {
 	wi := 0
 	acked := func(err error) {
 		if err == nil {
-			ack.WriteString(fmt.Sprintf("a %d\n", wi))
+			ack.WriteString(fmt.Sprintf("a %d %d\n", wi, lastSeq(e)))
 		} else {
 			ack.WriteString(fmt.Sprintf("e %d %s\n", wi, strings.ReplaceAll(err.Error(), "\n", " ")))
 		}
@@ -281,12 +281,23 @@ func runC02(c *Case, out func(string)) {
 		ncrash++
 		// what the child acknowledged / had issued
 		ackedW, issuedW, closed := 0, 0, false
+		var ackedSeq uint64 // C08: highest last_sequence the child saw acknowledged
 		if b, err := os.ReadFile(filepath.Join(root, "acklog")); err == nil {
 			for _, ln := range strings.Split(string(b), "\n") {
 				f := strings.Fields(ln)
 				if len(f) >= 2 && f[0] == "a" {
 					n, _ := strconv.Atoi(f[1])
 					ackedW = n + 1
+					if len(f) >= 3 {
+						// last_sequence as the statistics reported it right after the acknowledgement
+						q, _ := strconv.ParseUint(f[2], 10, 64)
+						if q <= ackedSeq && !(q == ackedSeq && ackedSeq == 0) {
+							fail(fmt.Sprintf("write %d was acknowledged with last_sequence %d, the write before it with %d", n, q, ackedSeq))
+						}
+						if q > ackedSeq {
+							ackedSeq = q
+						}
+					}
 				}
 				if len(f) >= 2 && f[0] == "i" {
 					n, _ := strconv.Atoi(f[1])
@@ -355,11 +366,28 @@ func runC02(c *Case, out func(string)) {
 			os.RemoveAll(root)
 			continue
 		}
+		// C08: sequence numbers across the recovery. When acknowledged writes are durable (sync
+		// immediate, or no crash) the counter may not be behind the last acknowledged number; in
+		// every mode each write after the recovery is numbered above everything recovered.
+		seq0 := lastSeq(e)
+		if (mode == "immediate" || crashed == 0) && seq0 < ackedSeq {
+			fail(fmt.Sprintf("crash at %s:%s: last_sequence went back from %d (acknowledged) to %d over the recovery", site, hit, ackedSeq, seq0))
+		}
 		// the same guarantees hold again for writes made after a recovery
 		post := []bop{{k: []byte("post1"), v: []byte("x")}, {k: []byte("post2"), v: []byte("y")}, {del: true, k: []byte("post1")}}
-		e.Put(post[0].k, post[0].v)
-		e.Put(post[1].k, post[1].v)
-		e.Delete(post[2].k)
+		seqPrev := seq0
+		for pi, perr := range []error{e.Put(post[0].k, post[0].v), nil, nil} {
+			if pi == 1 {
+				perr = e.Put(post[1].k, post[1].v)
+			} else if pi == 2 {
+				perr = e.Delete(post[2].k)
+			}
+			if q := lastSeq(e); perr == nil && q <= seqPrev {
+				fail(fmt.Sprintf("crash at %s:%s: write %d after the recovery left last_sequence at %d, it was %d before the write", site, hit, pi+1, q, seqPrev))
+			} else if perr == nil {
+				seqPrev = q
+			}
+		}
 		e.Close()
 		holdBackground()
 		e2, err := openEngine(dir)
@@ -367,6 +395,9 @@ func runC02(c *Case, out func(string)) {
 			fail(fmt.Sprintf("crash at %s:%s: second reopen failed: %v", site, hit, err))
 			os.RemoveAll(root)
 			continue
+		}
+		if q := lastSeq(e2); q < seqPrev {
+			fail(fmt.Sprintf("crash at %s:%s: last_sequence went back from %d to %d over a clean restart after the recovery", site, hit, seqPrev, q))
 		}
 		got2 := map[string][]byte{}
 		var sb2 strings.Builder
@@ -497,21 +528,29 @@ func genFragBoundaryBody(w *bufio.Writer, r *rand.Rand) {
 func genC02(w *bufio.Writer, seed int64, n int, tier string) {
 	r := rand.New(rand.NewSource(seed*7877 + 2))
 	for ci := 0; ci < n; ci++ {
+		genC02One(w, r, fmt.Sprintf("c02-%d-%d", seed, ci), "", ci)
+	}
+}
+
+// one crash case (family chosen by ci); extra is appended to the header (C08 runs the same cases
+// for its sequence-number oracle: "level=crash")
+func genC02One(w *bufio.Writer, r *rand.Rand, id, extra string, ci int) {
+	{
 		if ci%6 == 2 {
 			mode := []string{"none", "batch"}[r.Intn(2)]
-			fmt.Fprintf(w, "case c02-%d-%d memsize=10000000 sync=%s\n", seed, ci, mode)
+			fmt.Fprintf(w, "case %s%s memsize=10000000 sync=%s\n", id, extra, mode)
 			genFragBoundaryBody(w, r)
-			continue
+			return
 		}
 		if ci%6 == 5 {
 			mode := []string{"none", "batch"}[r.Intn(2)]
-			fmt.Fprintf(w, "case c02-%d-%d memsize=10000000 sync=%s\n", seed, ci, mode)
+			fmt.Fprintf(w, "case %s%s memsize=10000000 sync=%s\n", id, extra, mode)
 			genStraddleBody(w, r)
-			continue
+			return
 		}
 		memsize := []int{150, 300, 1000, 100000}[r.Intn(4)]
 		mode := []string{"immediate", "immediate", "batch", "none"}[r.Intn(4)]
-		fmt.Fprintf(w, "case c02-%d-%d memsize=%d sync=%s\n", seed, ci, memsize, mode)
+		fmt.Fprintf(w, "case %s%s memsize=%d sync=%s\n", id, extra, memsize, mode)
 		nops := 4 + r.Intn(16)
 		nkeys := 2 + r.Intn(4)
 		nflush, nwr := 0, 0
